@@ -151,7 +151,7 @@ HX void hx_attributes(uint64_t hist, uint64_t) {
 // (yyyy-mm-dd), time (hh:mm:ss) or both; the oracle is strftime() itself (libc contract, TZ=UTC), the time stamp is a
 // concrete value chosen by the driver, width and alignment are symbolic
 HX void hx_dates(uint64_t kind, uint64_t custom, uint64_t ts) {
-   static const char* const CUSTOM[] = {nullptr, "%H", "%d.%m.%Y", "%Y week %V", "%j", "%y%m%d-%H%M%S"};
+   static const char* const CUSTOM[] = {nullptr, "%H", "%d.%m.%Y", "%Y week %V", "%j", "%y%m%d-%H%M%S", "%c", "%A, %d %B %Y", "%x %X|%c|%c", "%D%T%F"};
    static const char* const DEFAULT[] = {"%Y-%m-%d", "%H:%M:%S", "%Y-%m-%d %H:%M:%S"};
    ::setenv("TZ", "UTC0", 1); ::tzset();
    fmt::Definition def;
@@ -175,6 +175,23 @@ HX void hx_dates(uint64_t kind, uint64_t custom, uint64_t ts) {
    ::strftime(buf, sizeof(buf), DEFAULT[0], ::localtime(&t));
    want += buf;
    vs_assert(oss.str() == want, "date/time field = time stamp of the message rendered with the field's format string (default: calendar date / time), padded and aligned");
+}
+
+// (d2) the process id shown is the id of the process that created the message - also when the process id changes between two
+// messages (the logging process forked: modelled by vs_setpid, which getpid() follows)
+HX void hx_pid(uint64_t, uint64_t) {
+   fmt::Definition def; { fmt::Creator c(def); c << fmt::pid << std::string("|") << fmt::text; }
+   fmt::Format f(def);
+   unsigned p1 = 1234, p2 = 56789;
+   vs_setpid((int) p1);
+   detail::LogMsg m1("file.cpp", "f", 1); m1.setText("one");
+   std::ostringstream o1; f.format(o1, m1);
+   vs_setpid((int) p2);
+   detail::LogMsg m2("file.cpp", "f", 2); m2.setText("two");
+   std::ostringstream o2; f.format(o2, m2);
+   std::ostringstream o3; f.format(o3, m1);
+   vs_assert(o1.str() == dec(p1) + "|one" && o3.str() == o1.str(), "the process id field shows the id of the process that created the message");
+   vs_assert(o2.str() == dec(p2) + "|two", "a message created after the process id changed (fork) shows the new process id");
 }
 
 // (e) hierarchies of message attribute objects: the innermost object that defines the attribute wins, outer objects are
